@@ -11,7 +11,40 @@ OS_ = "func_adl/object_stream.py"
 UA = "func_adl/util_ast.py"
 TBR = "func_adl/type_based_replacement.py"
 
+FS = "func_adl/ast/function_simplifier.py"
+
 MUTANTS = {
+    "C14": [
+        {"name": "selectmany-of-selectmany-unvisited", "edits": [(FS, "        return self.visit(new_select_many)", "        return new_select_many")]},
+        {"name": "where-of-select-unvisited", "edits": [(FS, "        # Recursively visit this mess to see if the Where needs to move further up.\n        return self.visit(s)", "        return s")]},
+        {"name": "attribute-skips-dict", "edits": [(FS, "        if isinstance(visited_value, ast.Dict):\n            r = self.visit_Subscript_Dict_with_value(visited_value, node.attr)", "        if isinstance(visited_value, ast.Dict) and len(visited_value.keys) < 2:\n            r = self.visit_Subscript_Dict_with_value(visited_value, node.attr)")]},
+        {"name": "nested-tuple-kept", "edits": [(FS, "            if type(v) is ast.Tuple and is_index:", "            if type(v) is ast.Tuple and is_index and not isinstance(v.elts[min(s.value or 0, len(v.elts) - 1)], ast.Tuple):")]},
+        {"name": "select-of-selectmany-unvisited", "edits": [(FS, '        return self.visit(function_call("SelectMany", [source, lambda_select]))', '        return function_call("SelectMany", [source, lambda_select])')]},
+        {"name": "first-subscript-not-moved", "edits": [(FS, '        if is_call_of(v, "First"):\n            return self.visit_Subscript_Of_First(v.args[0], s)', '        if is_call_of(v, "First") and not isinstance(s, ast.Constant):\n            return self.visit_Subscript_Of_First(v.args[0], s)')]},
+    ],
+    "C18": [
+        {"name": "index-off-by-one", "edits": [(FS, "        if n >= len(v.elts):\n            raise FuncADLIndexError(\n                f\"Attempt to access the {n}th element of a tuple only\"", "        if n > len(v.elts):\n            raise FuncADLIndexError(\n                f\"Attempt to access the {n}th element of a tuple only\"")]},
+        {"name": "variable-index-crashes-again", "edits": [(FS, "            if type(v) is ast.List and is_index:", "            if type(v) is ast.List:")]},
+        {"name": "absent-key-raw-str", "edits": [(FS, "        return r if r is not None else ast.Subscript(v, s, ast.Load())", "        return r if r is not None else ast.Subscript(v, s.value, ast.Load())")]},
+        {"name": "negative-constant-resolved", "edits": [(FS, "is_index = s.value is None or (type(s.value) is int and s.value >= 0)", "is_index = s.value is None or type(s.value) is int")], "equivalent": "negative indices are UnaryOp nodes in parsed text, never Constant"},
+        {"name": "index-error-on-dict", "edits": [(FS, "        return r if r is not None else ast.Subscript(v, s, ast.Load())", "        if r is None:\n            raise FuncADLIndexError('no such key')\n        return r")]},
+        {"name": "keyword-call-recursion", "edits": [(FS, "            keyword_asts = {k.arg: self.visit(k.value) for k in call_node.keywords}", "            keyword_asts = {k.arg: self.visit(k.value) for k in call_node.keywords if not isinstance(k.value, ast.Dict)}")]},
+    ],
+    "C02": [
+        {"name": "where-of-select-uncomposed", "edits": [(FS, 'w = function_call("Where", [source, self.visit(convolute(func_g, func_f))])', 'w = function_call("Where", [source, self.visit(func_g)])')]},
+        {"name": "convolute-swapped", "edits": [(FS, "    call_g = ast.Call(l_g, [ast.Call(l_f, [f_arg], [])], [])", "    call_g = ast.Call(l_f, [ast.Call(l_g, [f_arg], [])], [])")]},
+        {"name": "and-to-or", "edits": [(FS, "arg, ast.BoolOp(ast.And(), [lambda_call(arg, func_f), lambda_call(arg, func_g)])", "arg, ast.BoolOp(ast.Or(), [lambda_call(arg, func_f), lambda_call(arg, func_g)])")]},
+        {"name": "where-order-swapped", "edits": [(FS, "[lambda_call(arg, func_f), lambda_call(arg, func_g)]", "[lambda_call(arg, func_g), lambda_call(arg, func_f)]")]},
+        {"name": "select-of-selectmany-drops-g", "edits": [(FS, "            func_f, make_Select(lambda_body(func_f), func_g)\n", "            func_f, lambda_body(func_f)\n")]},
+        {"name": "lambda-is-true-loose", "edits": [(UA, "    return rl.body.value is True", "    return bool(rl.body.value)")]},
+        {"name": "no-unique-binders", "edits": [(FS, "            node = make_binders_unique(node)\n", "")]},
+        {"name": "no-keyword-binding", "edits": [(FS, "                for k_name, arg in keyword_asts.items():\n                    self._arg_stack.define_name(k_name, arg)\n", "")]},
+        {"name": "identity-select-any-arity", "edits": [(UA, "    if not lambda_test(lam, 1):\n        return False\n\n    b = lambda_unwrap(lam)", "    if not lambda_test(lam):\n        return False\n\n    b = lambda_unwrap(lam)")], "equivalent": True},
+        {"name": "selectmany-of-select-as-select", "edits": [(FS, '        w = function_call("SelectMany", [seq, self.visit(convolute(func_g, func_f))])\n        return w', '        w = function_call("Select", [seq, self.visit(convolute(func_g, func_f))])\n        return w')]},
+        {"name": "first-attr-no-select", "edits": [(FS, "            first, lambda_build(a, ast.Attribute(value=ast.Name(a, ast.Load()), attr=attr))\n        )\n\n        return self.visit(function_call(\"First\", [select]))", "            first, lambda_build(a, ast.Attribute(value=ast.Name(a, ast.Load()), attr=attr))\n        )\n\n        return self.visit(function_call(\"First\", [first]))")]},
+        {"name": "tuple-index-off", "edits": [(FS, "        return copy.deepcopy(v.elts[n])\n\n    def visit_Subscript_List", "        return copy.deepcopy(v.elts[n if n < 2 else n - 1])\n\n    def visit_Subscript_List")]},
+        {"name": "dict-first-key", "edits": [(FS, "            if value.value == s:\n                return copy.deepcopy(v.values[index])", "            if value.value == s or index == 1:\n                return copy.deepcopy(v.values[index])")]},
+    ],
     "C13": [
         {"name": "double-quote-wrap", "edits": [(UA, "        p_var = repr(p_var)\n", "        p_var = '\"' + p_var.replace('\"', '\\\\\"') + '\"'\n")]},
         {"name": "literal-via-float", "edits": [(UA, "    return ast.Constant(value=p, kind=None)", "    return ast.Constant(value=float(p) if isinstance(p, int) and not isinstance(p, bool) and abs(p) > 2**62 else p, kind=None)")]},
